@@ -388,7 +388,37 @@ def r2_7_u16_list(ctx, prog, rule="R2.7"):
             ok = len(ix) == 1 and len(wr) == 1 and isinstance(ix[0][1], tuple) and ix[0][1][0] == "RangeFrom" \
                 and isinstance(ix[0][1][1], tuple) and ix[0][1][1][0] == "op:Mul" and ix[0][1][1][2] == 2
             ctx.ob(rule, "writer:stride", ok, "entry written at %s" % (show(ix[0][1])[:80] if ix else None), b.where())
-    ctx.floor(rule, "writer closures", len(cl), 1)
+    n_writers = len(cl)
+    if not cl:
+        # loop form: `for (slot, x) in raw_value[..len].chunks_exact_mut(2).zip(attrs.iter()) { write_u16(slot, *x) }`:
+        # by the std semantics of chunks_exact_mut / zip, entry i lands at 2 x i of the view, which must start at byte 0
+        from .. import linproof as LP
+        wpaths, winfo = C.explore_fn(prog, "<%s as stun_rs::attributes::EncodeAttributeValue>::encode" % UA, "x", [r"\{closure"], log_asserts=True)
+        seen_w = {}
+        for pa in wpaths:
+            for i, e in enumerate(pa.log):
+                if e[0] != "call" or not re.search(r"ByteOrder>::write_u16$", e[1]):
+                    continue
+                a = C.expr_of(pa, e[2], 0, i)
+                d, v = LP.strip(a[0]), LP.strip(a[1])
+                ok = False
+                why = "write_u16(%s, %s)" % (show(d)[:80], show(v)[:60])
+                if isinstance(d, tuple) and len(d) == 2 and isinstance(d[0], tuple) and d[0][0].endswith("::next") and re.match(r"\.some\.0(\.\*)?$", d[1]):
+                    z = LP.strip(d[0][1])
+                    if isinstance(z, tuple) and z[0].endswith("::zip") and len(z) == 3:
+                        ch, other = LP.strip(z[1]), LP.strip(z[2])
+                        L = LP.Lin()
+                        if isinstance(ch, tuple) and re.search(r"chunks_exact_mut$", ch[0]) and ch[2] == 2 and "attrs" in repr(other) and "iter" in repr(other):
+                            root, lo, hi = L.view(ch[1])
+                            same_item = isinstance(v, tuple) and len(v) == 2 and v[0] == d[0] and re.match(r"\.some\.1(\.\*)*$", v[1]) is not None
+                            ok = "raw_value" in repr(root) and lo == {} and same_item
+                            why = "entries are the 2-byte chunks of %s zipped with the list, each written with its own entry: %s" % (show(ch[1])[:60], same_item)
+                if "w" not in seen_w or not ok:
+                    seen_w["w"] = (ok, why)
+        for k_, (ok, why) in seen_w.items():
+            ctx.ob(rule, "writer:stride", ok, why, winfo["where"])
+        n_writers = len(seen_w)
+    ctx.floor(rule, "writer closures", n_writers, 1)
     paths, info = C.explore_fn(prog, "<%s as stun_rs::attributes::DecodeAttributeValue>::decode" % UA, "x", [r"\{closure"])
     ctx.fn(info["body"])
     seen = {}
